@@ -5,6 +5,7 @@
 -/
 import Kskm.Hsm
 import Kskm.Chain
+import Kskm.SkrValidate
 namespace Kskm
 
 /-- `KSKKey` of common/config_misc.py (one entry of the `keys:` section). -/
@@ -190,12 +191,7 @@ def dedupNat : List Nat → List Nat
 
 def sameSet (a b : List Nat) : Bool := a.all (b.contains ·) && b.all (a.contains ·)
 
-/-- `check_valid_signatures(bundle, response_policy)` -/
-def checkValidSignatures (verify : Verifier) (b : Bundle) (pol : ResponsePolicy) : Res Unit :=
-  if !pol.validateSignatures then pure () else
-  match validateSignatures verify b with
-  | .error (.error .invalidSignature) => violation .skrInvalidSignature
-  | r => r
+-- `check_valid_signatures` is `checkValidSignatures` of Kskm/SkrValidate.lean
 
 /-- one iteration of the loop in `sign_bundles` -/
 def signBundle (ext : Externals) (mods : List P11Module) (cfg : SignerConfig) (slot : Nat)
